@@ -696,10 +696,17 @@ func byteCompareGroups(f *ssa.Function) map[ssa.Value]map[*ssa.BasicBlock][]int6
 	return out
 }
 
+type g5spec struct{ rel, fn string }
+
 func rulesLineTerminators(c *Ctx, r *Report, prop string) {
-	// (a) byte-level decoders: fasta.read, newick.nextToken
+	rulesG5Bytes(c, r, []g5spec{{"formats/fasta", "(*reader).read"}, {"formats/newick", "(*reader).nextToken"}}, 5, "terminator comparison groups (4 states in fasta.read, 1 case list in newick.nextToken)")
+	rulesG5Lines(c, r)
+}
+
+// rulesG5Bytes: byte-level decoders — every group of terminator comparisons contains both LF and CR.
+func rulesG5Bytes(c *Ctx, r *Report, specs []g5spec, floor int, note string) {
 	nGroups := 0
-	for _, spec := range []struct{ rel, fn string }{{"formats/fasta", "(*reader).read"}, {"formats/newick", "(*reader).nextToken"}} {
+	for _, spec := range specs {
 		f := c.fn(spec.rel, spec.fn)
 		where := spec.rel + "." + spec.fn
 		if f == nil {
@@ -744,7 +751,10 @@ func rulesLineTerminators(c *Ctx, r *Report, prop string) {
 			}
 		}
 	}
-	r.floor("G5", nGroups, 5, "terminator comparison groups (4 states in fasta.read, 1 case list in newick.nextToken)")
+	r.floor("G5", nGroups, floor, note)
+}
+
+func rulesG5Lines(c *Ctx, r *Report) {
 	// (b) fastq: Scanner with the default split function
 	nSplit := 0
 	for _, f := range formatFuncs(c) {
